@@ -36,6 +36,7 @@ type Draw struct {
 type Record struct {
 	Property string   `json:"property"`
 	Test     string   `json:"test"`
+	Tier     string   `json:"tier,omitempty"` // VERIF_TIER the case was generated under (draws may depend on it)
 	Message  string   `json:"message,omitempty"`
 	Notes    []string `json:"notes,omitempty"`
 	Draws    []Draw   `json:"draws"`
@@ -72,10 +73,22 @@ func (g *G) next(label string) *Draw {
 	d := &g.replay[g.pos]
 	g.pos++
 	if d.L != label {
-		panic(failure{fmt.Sprintf("REPLAY-MISMATCH: draw %d has label %q, property asked for %q", g.pos-1, d.L, label)})
+		// The code under test behaves differently than when the record was taken
+		// (typically: the defect was repaired and a message is no longer sent), so
+		// the property asks for other draws from here on.  The rest of the record
+		// is dropped and the remaining draws take their minimal value.
+		g.notes = append(g.notes, fmt.Sprintf("replay diverged at draw %d (record has %q, property asked for %q): minimal values from here on", g.pos-1, d.L, label))
+		g.pos = len(g.replay) + 1
+		return nil
 	}
 	g.rec = append(g.rec, *d)
 	return d
+}
+
+// diverge drops the rest of the record (see next).
+func (g *G) diverge(label string) {
+	g.notes = append(g.notes, fmt.Sprintf("replay diverged at draw %d (%s): minimal values from here on", g.pos-1, label))
+	g.pos = len(g.replay) + 1
 }
 
 // Int draws an integer in [min, max].
@@ -90,14 +103,13 @@ func (g *G) Int(label string, min, max int) int {
 			g.rec = append(g.rec, Draw{L: label, I: &i})
 			return min
 		}
-		if d.I == nil {
-			panic(failure{"REPLAY-MISMATCH: " + label + " is not an int"})
+		if d.I == nil || int(*d.I) < min || int(*d.I) > max {
+			g.diverge(label)
+			i := int64(min)
+			g.rec[len(g.rec)-1] = Draw{L: label, I: &i}
+			return min
 		}
-		v := int(*d.I)
-		if v < min || v > max {
-			panic(failure{fmt.Sprintf("REPLAY-MISMATCH: %s=%d outside %d..%d", label, v, min, max)})
-		}
-		return v
+		return int(*d.I)
 	}
 	v := rapid.IntRange(min, max).Draw(g.rt, label)
 	i := int64(v)
@@ -124,7 +136,10 @@ func (g *G) Uint64(label string) uint64 {
 			return 0
 		}
 		if d.U == nil {
-			panic(failure{"REPLAY-MISMATCH: " + label + " is not a uint64"})
+			g.diverge(label)
+			var z uint64
+			g.rec[len(g.rec)-1] = Draw{L: label, U: &z}
+			return 0
 		}
 		return *d.U
 	}
@@ -143,11 +158,17 @@ func (g *G) Bytes(label string, minLen, maxLen int) []byte {
 			return make([]byte, minLen)
 		}
 		if d.B == nil {
-			panic(failure{"REPLAY-MISMATCH: " + label + " is not bytes"})
+			g.diverge(label)
+			z := hex.EncodeToString(make([]byte, minLen))
+			g.rec[len(g.rec)-1] = Draw{L: label, B: &z}
+			return make([]byte, minLen)
 		}
 		b, err := hex.DecodeString(*d.B)
 		if err != nil || len(b) < minLen || len(b) > maxLen {
-			panic(failure{"REPLAY-MISMATCH: bad bytes for " + label})
+			g.diverge(label)
+			z := hex.EncodeToString(make([]byte, minLen))
+			g.rec[len(g.rec)-1] = Draw{L: label, B: &z}
+			return make([]byte, minLen)
 		}
 		return b
 	}
@@ -252,7 +273,7 @@ func writeRecord(g *G, msg, kind string) {
 	if dir == "" {
 		return
 	}
-	r := Record{Property: g.id, Test: g.test, Message: msg, Notes: g.notes, Draws: g.rec}
+	r := Record{Property: g.id, Test: g.test, Tier: os.Getenv("VERIF_TIER"), Message: msg, Notes: g.notes, Draws: g.rec}
 	b, _ := json.MarshalIndent(r, "", " ")
 	name := fmt.Sprintf("%s-%s-%d.json", kind, g.test, os.Getpid())
 	tmp := filepath.Join(dir, "."+name)
